@@ -3,6 +3,7 @@
 
 mod ctl;
 mod det;
+mod dxrun;
 mod props;
 mod refmodel;
 mod report;
@@ -47,8 +48,19 @@ fn main() {
         i += 1;
     }
     det::install_panic_hook(std::env::var("VCHECK_PANIC_VERBOSE").is_err());
-    let _ = replay;
+    if let Some(file) = replay {
+        let code = match id.as_str() {
+            "C09" => props::c09::replay(&file),
+            "C11" => props::c11::replay(&file),
+            _ => {
+                eprintln!("replay is not supported for {id}");
+                2
+            }
+        };
+        std::process::exit(code);
+    }
     let code = match id.as_str() {
+        "C09" => props::c09::run(tier),
         "C11" => props::c11::run(tier),
         _ => {
             eprintln!("unknown check {id}");
